@@ -7,6 +7,7 @@ import (
 	"os"
 	"sync"
 
+	"github.com/go-openapi/spec"
 	"github.com/go-openapi/validate"
 )
 
@@ -28,6 +29,21 @@ func genConc(rng *rand.Rand, idx int, tier string) Case {
 	g.defs = nil
 	shared := g.schema(2)
 	delete(shared, "$ref")
+	// shared long-lived parameter and header validators (no recycling), arrays with items more often than not
+	sharedSimple := func() map[string]interface{} {
+		s := g.simpleSchema(2)
+		if g.p(60) {
+			s = map[string]interface{}{"type": "array", "items": g.simpleSchema(1)}
+			if g.p(30) {
+				s["uniqueItems"] = true
+			}
+		}
+		return s
+	}
+	sharedParam := sharedSimple()
+	sharedParam["name"] = "ids"
+	sharedParam["in"] = "query"
+	sharedHeader := sharedSimple()
 	progs := []interface{}{}
 	for t := 0; t < n; t++ {
 		k := 2 + rng.Intn(5)
@@ -35,8 +51,12 @@ func genConc(rng *rand.Rand, idx int, tier string) Case {
 		for i := 0; i < k; i++ {
 			r := rng.Intn(100)
 			switch {
-			case r < 25:
+			case r < 15:
 				calls = append(calls, map[string]interface{}{"kind": "shared", "data": g.instance(shared)})
+			case r < 21:
+				calls = append(calls, map[string]interface{}{"kind": "sharedparam", "value": g.simpleValue(sharedParam, 2)})
+			case r < 25:
+				calls = append(calls, map[string]interface{}{"kind": "sharedheader", "value": g.simpleValue(sharedHeader, 2)})
 			case r < 40:
 				calls = append(calls, map[string]interface{}{"kind": "pattern", "pattern": g.pick(append(append([]string{}, patPool...), badPatPool...)), "str": g.pick(strPool)})
 			case r < 48:
@@ -53,14 +73,30 @@ func genConc(rng *rand.Rand, idx int, tier string) Case {
 		}
 		progs = append(progs, calls)
 	}
-	return Case{"shared": shared, "programs": progs}
+	return Case{"shared": shared, "sharedParam": sharedParam, "sharedHeader": sharedHeader, "programs": progs}
 }
 
-func runConcCall(call map[string]interface{}, shared *validate.SchemaValidator) map[string]interface{} {
+type sharedValidators struct {
+	schema *validate.SchemaValidator
+	param  *validate.ParamValidator
+	header *validate.HeaderValidator
+}
+
+func runConcCall(call map[string]interface{}, sh sharedValidators) map[string]interface{} {
 	switch asStr(call["kind"]) {
 	case "shared":
 		db, _ := json.Marshal(call["data"])
-		return outcome(shared.Validate(parsePlain(db)))
+		return outcome(sh.schema.Validate(parsePlain(db)))
+	case "sharedparam":
+		if sh.param == nil {
+			return map[string]interface{}{"valid": true, "skipped": true}
+		}
+		return outcome(sh.param.Validate(typedValue(call["value"])))
+	case "sharedheader":
+		if sh.header == nil {
+			return map[string]interface{}{"valid": true, "skipped": true}
+		}
+		return outcome(sh.header.Validate(typedValue(call["value"])))
 	case "pattern":
 		err := validate.Pattern("p", "query", asStr(call["str"]), asStr(call["pattern"]))
 		if err == nil {
@@ -81,8 +117,23 @@ func runConcCall(call map[string]interface{}, shared *validate.SchemaValidator) 
 func runConc(c Case) interface{} {
 	sb, _ := json.Marshal(c["shared"])
 	progs := asList(c["programs"])
-	mkShared := func() *validate.SchemaValidator {
-		return validate.NewSchemaValidator(parseSchemaJSON(sb), nil, "shared", newRegistry(nil))
+	mkShared := func() sharedValidators {
+		sh := sharedValidators{schema: validate.NewSchemaValidator(parseSchemaJSON(sb), nil, "shared", newRegistry(nil))}
+		if c["sharedParam"] != nil {
+			pb, _ := json.Marshal(c["sharedParam"])
+			p := new(spec.Parameter)
+			if json.Unmarshal(pb, p) == nil {
+				sh.param = validate.NewParamValidator(p, newRegistry(nil))
+			}
+		}
+		if c["sharedHeader"] != nil {
+			hb, _ := json.Marshal(c["sharedHeader"])
+			h := new(spec.Header)
+			if json.Unmarshal(hb, h) == nil {
+				sh.header = validate.NewHeaderValidator("X-Shared", h, newRegistry(nil))
+			}
+		}
+		return sh
 	}
 	// reference: every call alone, sequentially, fresh pools
 	uninstallHooks()
